@@ -756,7 +756,7 @@ def setup(ctx):
 def run(ctx):
     ctx.enumerate(ctx.p_grid, grid_cases(ctx), batch=300, name="every op x ordered pairs of the boundary alphabet (%d values)" % len(BOUNDARY),
                   exhaustive=True)
-    ctx.forall(ctx.p_rand, ctx.scale(30000, 3000000), batch=300)
+    ctx.forall(ctx.p_rand, ctx.scale(45000, 3000000), batch=300)
 
 
 if __name__ == "__main__":
